@@ -43,8 +43,8 @@ RF_RULE = ("every byte stream over {a,CR,LF,NUL} of length <=4 (quick; <=6 thoro
 
 PROPS = {
     "C07": {
-        "module": "FBV.Props.C07",
-        "theorems": ["FBV.C07.serve_spec", "FBV.C07.drain_spec", "FBV.C07.chain_read_spec", "FBV.C07.ab_read_spec", "FBV.C02.read_frame_spec"],
+        "module": "FBV.Props.C07b",
+        "theorems": ["FBV.C07.serveZ_spec", "FBV.C07.drainZ_spec", "FBV.C07.serve_spec", "FBV.C07.drain_spec", "FBV.C07.chain_read_spec", "FBV.C07.ab_read_spec", "FBV.C02.read_frame_spec"],
         "jobs": (lambda tier: [{"which": "sync", "profile": "dev", "args": ["pl"], "oc": True}, {"which": "tokio", "profile": "dev", "args": ["apl"], "oc": True}]),
         "tie": "T2 the loop of tests/server.rs re-expressed over a scripted transport (library calls are the real ones), blocking and tokio (hand-driven polls, Pending on reads and writes)",
         "rule": ("connections of 1-3 requests `[len byte][extra][CR]LF payload` with payload lengths {0,1,2,3,5,9} (payload bytes include LF/CR), truncated at random "
@@ -131,8 +131,9 @@ PROPS = {
         "trusted_extra": ["std::io::Take modelled by hand from the pinned std source (tied three-way on every run)"],
     },
     "C13": {
-        "module": "FBV.Props.C13",
-        "theorems": ["FBV.C13.chain_write", "FBV.C13.chain_flush", "FBV.C13.take_write", "FBV.C13.take_flush",
+        "module": "FBV.Props.C13b",
+        "theorems": ["FBV.C13.chain_forwarded_exactly_once", "FBV.C13.chain_writes_independent", "FBV.C13.chain_reads_independent", "FBV.C13.take_forwarded_exactly_once", "FBV.C13.take_writes_independent", "FBV.C13.take_reads_independent",
+                     "FBV.C13.chain_write", "FBV.C13.chain_flush", "FBV.C13.take_write", "FBV.C13.take_flush",
                      "FBV.C13.chain_read_no_write", "FBV.C13.take_read_no_write",
                      "FBV.C13.achain_write", "FBV.C13.achain_flush", "FBV.C13.atake_write", "FBV.C13.atake_flush", "FBV.C13.asrw_pollRead_no_write"],
         "jobs": (lambda tier: [{"which": "sync", "profile": "dev", "args": ["chain"], "oc": True}, {"which": "sync", "profile": "dev", "args": ["take"], "oc": True},
@@ -145,8 +146,9 @@ PROPS = {
                        "log of the real adapters is exactly the adapter-level sequence with identical bytes and results (evaluated on the implementation's log)."),
     },
     "C14": {
-        "module": "FBV.Props.C14",
-        "theorems": ["FBV.pollLoop_outcome", "FBV.C14.pending_only_if_reader_pending", "FBV.C14.drive_outcome", "FBV.C15.async_eq_blocking",
+        "module": "FBV.Props.C14b",
+        "theorems": ["FBV.C14.cof_drive_eq_blocking", "FBV.C14.cof_pending_only_if_reader", "FBV.C14.cof_conserves", "FBV.C14.cof_calls_once", "FBV.C14.cof_full",
+                     "FBV.pollLoop_outcome", "FBV.C14.pending_only_if_reader_pending", "FBV.C14.drive_outcome", "FBV.C15.async_eq_blocking",
                      "FBV.C15.drive_spec", "FBV.C15.restart_eq_resume"],
         "jobs": tokio_jobs("arf"),
         "tie": "T2 hand-driven polls of the real read_frame / copy_once_from futures over a scripted AsyncRead, every subset of reader polls Pending",
@@ -161,8 +163,9 @@ PROPS = {
         "trusted_extra": ["source-level reading of `async fn` as a state machine with one await point; tokio::io::AsyncReadExt::read modelled as stateless"],
     },
     "C15": {
-        "module": "FBV.Props.C15",
-        "theorems": ["FBV.C15.restart_eq_resume", "FBV.C15.pending_state", "FBV.C15.drive_spec", "FBV.pollLoop_outcome"],
+        "module": "FBV.Props.C14b",
+        "theorems": ["FBV.C14.cof_drive_eq_blocking", "FBV.C14.cof_not_ok", "FBV.C14.cof_ok",
+                     "FBV.C15.restart_eq_resume", "FBV.C15.pending_state", "FBV.C15.drive_spec", "FBV.pollLoop_outcome"],
         "jobs": tokio_jobs("arfc"),
         "tie": "T2 as C14 with every Pending a cancellation point: the future is dropped, readable() inspected, a new call started",
         "rule": ("the C14 scenarios x every non-empty subset of their pending points as cancellation points (drop the future, inspect readable(), start a new "
@@ -174,8 +177,9 @@ PROPS = {
         "trusted_extra": ["source-level reading of `async fn` as a state machine with one await point"],
     },
     "C16": {
-        "module": "FBV.Props.C16",
-        "theorems": ["FBV.C16.chain_bisim", "FBV.C16.chain_pending_only_from_inner", "FBV.C16.chain_keeps_filled", "FBV.C16.take_exposes_at_most_remaining",
+        "module": "FBV.Props.C16b",
+        "theorems": ["FBV.C16.chain_await_eq_blocking", "FBV.C16.take_await_eq_blocking",
+                     "FBV.C16.chain_bisim", "FBV.C16.chain_pending_only_from_inner", "FBV.C16.chain_keeps_filled", "FBV.C16.take_exposes_at_most_remaining",
                      "FBV.C16.take_at_zero", "FBV.C16.take_pending_loses_nothing", "FBV.C16.take_eq_tokio", "FBV.C16.Legacy.legacy_skips_first"],
         "jobs": tokio_jobs("achain", "atake"),
         "tie": "T2 three-way poll by poll: implementation, real tokio chain()/take() over twin streams, model",
